@@ -231,14 +231,19 @@ func prodCache(y int) {
 	if y < minYear || y > maxYear {
 		return
 	}
-	ly := calendar.NewLunarYear(y)
-	digest1(ly)
-	for e := ly.GetMonths().Front(); e != nil; e = e.Next() {
-		if m, ok := e.Value.(*calendar.LunarMonth); ok && m != nil {
-			digest1(m)
+	digest1(calendar.NewLunarYear(y))
+	// the year's own months only, each taken from whatever object is cached for y at that moment (accessors of a month
+	// of a neighbouring year would have that year computed and y evicted, and the objects prodded so far with it)
+	for idx := 0; idx < 16; idx++ {
+		k := 0
+		for e := calendar.NewLunarYear(y).GetMonths().Front(); e != nil; e = e.Next() {
+			if m, ok := e.Value.(*calendar.LunarMonth); ok && m != nil && k == idx && m.GetYear() == y {
+				digest1(m)
+			}
+			k++
 		}
 	}
-	for e := ly.GetMonthsInYear().Front(); e != nil; e = e.Next() {
+	for e := calendar.NewLunarYear(y).GetMonthsInYear().Front(); e != nil; e = e.Next() {
 		_ = fmt.Sprint(e.Value)
 	}
 	calendar.NewLunarYear(y)
